@@ -38,6 +38,9 @@ fn sc_lands_and_skips() -> Option<String> {
     // names that merely LOOK like the hub's control directory are ordinary files
     put(&l, ".copiaignore", b"*.o"); put(&l, ".copia-hooks/pre-push", b"#!/bin/sh"); put(&l, "x.copia", b"suffix");
     put(&h, "other", b"keep me"); put(&h, "a.txt", b"an older alpha"); put(&h, "same", b"already there");
+    // neighbours in byte order that are not neighbours in path-component order: a directory next to `<dir>-old/`, `<dir>.md`, `<dir> 2/`
+    for (p, c) in [("docs/guide.md", "guide v2"), ("docs-old/guide.md", "old guide"), ("docs.md", "index"), ("docs 2/x", "x"), ("src/main.rs", "fn main() {}"), ("src.bak", "backup"), ("src+/gen.rs", "gen")] { put(&l, p, c.as_bytes()); }
+    put(&h, "docs/guide.md", b"guide v1"); put(&h, "docs-old/guide.md", b"old guide"); put(&h, "docs.md", b"index"); put(&h, "src.bak", b"an older backup"); put(&h, "src+/gen.rs", b"gen");
     let ino0 = inodes(&h);
     let (rc, out) = hub_sync(&l, &h);
     let res = (|| {
@@ -47,7 +50,7 @@ fn sc_lands_and_skips() -> Option<String> {
         if th.get("other").map(|v| v.as_slice()) != Some(b"keep me".as_slice()) { return Some("hub-sync touched a hub path that is not in the local tree (C13)".into()); }
         if th.keys().any(|p| p.contains(".conflict-")) { return Some("hub-sync on a quiet hub left a conflict copy (its `expected` was not the listed hash) (C13)".into()); }
         let ino1 = inodes(&h);
-        if ino1.get("same") != ino0.get("same") { return Some("the file the hub already had (same bytes) was sent again: its hub file was replaced (C13)".into()); }
+        for same in ["same", "docs-old/guide.md", "docs.md", "src+/gen.rs"] { if ino1.get(same) != ino0.get(same) { return Some(format!("`{same}`, which the hub already had with the same bytes, was sent again: its hub file was replaced (C13)")); } }
         let (rc2, out2) = hub_sync(&l, &h);
         if rc2 != Some(0) { return Some(format!("an immediate second hub-sync fails: exit {rc2:?}, {} (C13)", out2.lines().last().unwrap_or(""))); }
         if tree(&h) != th { return Some("an immediate second hub-sync changed the hub (C13)".into()); }
